@@ -45,6 +45,19 @@ func decoderInv(v bounds.View) []lin.Fact {
 // boundsConfig builds the engine configuration shared by C03/C08/C13/C19/C20.
 // withSkipPre selects the contract pass of (*Decoder).Skip (see DESIGN §3.1).
 func boundsConfig(prog *core.Program, pk *packages.Package, withSkipPre bool) *bounds.Config {
+	mode := ""
+	if withSkipPre {
+		mode = "lemma"
+	}
+	return boundsConfigSkip(prog, pk, mode)
+}
+
+// boundsConfigSkip selects a contract pass for (*Decoder).Skip:
+//   ""       no caller-side hypothesis (bounds obligations)
+//   "lemma"  cursor is past a key of this tag ⇒ the result is key + payload
+//   "wtN"    wire type N ⇒ the cursor advances by the payload width of N
+func boundsConfigSkip(prog *core.Program, pk *packages.Package, skipMode string) *bounds.Config {
+	withSkipPre := skipMode == "lemma"
 	cfg := &bounds.Config{
 		Info:  pk.TypesInfo,
 		Fset:  prog.Fset,
@@ -114,7 +127,47 @@ func boundsConfig(prog *core.Program, pk *packages.Package, withSkipPre bool) *b
 			if !ok {
 				return nil
 			}
-			return []lin.Fact{lin.LE(sz, rl)}
+			out := []lin.Fact{lin.LE(sz, rl)}
+			if withSkipPre {
+				// complete field: len(result) = key size + bytes consumed
+				off, ok3 := v.RecvField("offset")
+				off0, ok4 := v.RecvFieldEntry("offset")
+				if ok3 && ok4 {
+					out = append(out, lin.LE(rl, sz.Add(off).Sub(off0)), lin.LE(sz.Add(off).Sub(off0), rl))
+				}
+			}
+			return out
+		}
+		if len(skipMode) == 3 && skipMode[:2] == "wt" {
+			wtv := int64(skipMode[2] - '0')
+			sk.Pre = func(v bounds.View) []lin.Fact {
+				wt, ok := v.Param(1)
+				if !ok {
+					return nil
+				}
+				return []lin.Fact{lin.LE(wt, lin.Const(wtv)), lin.LE(lin.Const(wtv), wt)}
+			}
+			sk.Post = func(v bounds.View) []lin.Fact {
+				off, ok3 := v.RecvField("offset")
+				off0, ok4 := v.RecvFieldEntry("offset")
+				if !ok3 || !ok4 {
+					return []lin.Fact{lin.LE(lin.Const(1), lin.Const(0))}
+				}
+				adv := off.Sub(off0)
+				switch wtv {
+				case 1:
+					return []lin.Fact{lin.LE(adv, lin.Const(8)), lin.LE(lin.Const(8), adv)}
+				case 5:
+					return []lin.Fact{lin.LE(adv, lin.Const(4)), lin.LE(lin.Const(4), adv)}
+				case 0:
+					return []lin.Fact{lin.LE(lin.Const(1), adv)}
+				case 2:
+					return []lin.Fact{lin.LE(lin.Const(1), adv)}
+				default:
+					// unsupported wire types must not reach a success return
+					return []lin.Fact{lin.LE(lin.Const(1), lin.Const(0))}
+				}
+			}
 		}
 		if withSkipPre {
 			sk.Pre = func(v bounds.View) []lin.Fact {
